@@ -73,6 +73,7 @@ pub fn check_ggsw_cells<B: Bk>(ctx: &Ctx<B>, g: &GGSW<Vec<u8>>, pt: &[i64]) -> O
     let dsize: usize = g.dsize().into();
     let rows: usize = g.dnum().into();
     let cols: usize = (g.rank() + 1).into();
+    let mut worst = 0f64;
     for col in 0..cols {
         let e: Vec<i64> = if col == 0 { pt.to_vec() } else { negacyclic(pt, &ctx.sk_clear[col - 1]) };
         for row in 0..rows {
@@ -83,7 +84,7 @@ pub fn check_ggsw_cells<B: Bk>(ctx: &Ctx<B>, g: &GGSW<Vec<u8>>, pt: &[i64]) -> O
                 let want = (e[i] as i128) << unit_log;
                 let diff = center(x - want, bits);
                 let rel = diff.abs() as f64 / (1u128 << (unit_log - 1)) as f64;
-                NOISE_CELL.update(rel.min(1e6));
+                worst = worst.max(rel);
                 if rel >= 1.0 {
                     let (q, _) = round_at(x, bits, (row + 1) * dsize * b);
                     return Some(json!({"row": row, "col": col, "coefficient": i, "got_rounded": q, "want": e[i], "rel_error": rel}));
@@ -91,6 +92,8 @@ pub fn check_ggsw_cells<B: Bk>(ctx: &Ctx<B>, g: &GGSW<Vec<u8>>, pt: &[i64]) -> O
             }
         }
     }
+    // the margin note only reports matrices whose every cell decrypted correctly
+    NOISE_CELL.update(worst);
     None
 }
 
@@ -1431,7 +1434,9 @@ where
                     let half_unit = (-(b * (row as f64 + 1.0)) - 1.0).exp2();
                     for (bit, st) in stats.iter().enumerate() {
                         let rel = st.max() / half_unit;
-                        NOISE_CELL.update(rel.min(1e6));
+                        if rel < 1.0 {
+                            NOISE_CELL.update(rel);
+                        }
                         if !(rel < 1.0) {
                             rec.fail(desc("debug_prepare", B::NAME, "wrong_cell", c, inner.clone(), json!({"bit": bit, "max_error": st.max(), "rel": rel})));
                             break;
